@@ -276,6 +276,48 @@ func runC10(c c10Case) (*vh.Violation, vh.Outcome) {
 				continue
 			}
 			t := txs[o.A%len(txs)]
+			if o.B >= 4 {
+				// the transaction is mined again in a later block and the node tells its subscribers: the log of the new
+				// block and the removal of the old one, in either order. From here on the new block is "its block".
+				collect()
+				already := false
+				sim.mu.Lock()
+				for _, a := range arrivals {
+					if a.msg.TxHash == t.Hash {
+						already = true
+					}
+				}
+				sim.mu.Unlock()
+				if already || t.Gone || t.Status != 1 || diedNow() || maybeLost[t.Hash] {
+					continue
+				}
+				sim.mu.Lock()
+				oldBlock, oldHash := t.Block, t.BlockHash
+				sim.head++
+				t.Block = sim.head
+				t.BlockHash = sim.blockHash(t.Block)
+				t.OrigBlock, t.OrigHash = t.Block, t.BlockHash
+				found0 := countLog("found new message publication transaction")
+				matched := 0
+				if o.B%2 == 0 {
+					matched += sim.publish(t)
+					matched += sim.publishRemoved(t, oldBlock, oldHash)
+				} else {
+					matched += sim.publishRemoved(t, oldBlock, oldHash)
+					matched += sim.publish(t)
+				}
+				sim.mu.Unlock()
+				out.Labels = append(out.Labels, "remined-with-notifications")
+				reorgOrJump = true
+				if matched > 0 && !waitFor(3*time.Second, func() bool { return countLog("found new message publication transaction") >= found0+matched || diedNow() }) {
+					return inconclusive("log-not-consumed")
+				}
+				if countLog("found new message publication transaction") < found0+matched {
+					maybeLost[t.Hash] = true
+				}
+				time.Sleep(500 * time.Microsecond)
+				break
+			}
 			sim.mu.Lock()
 			switch o.B % 4 {
 			case 0: // the block is replaced, the tx is re-mined in the replacement (other hash, same number)
@@ -590,7 +632,7 @@ func genC10(t *rapid.T) c10Case {
 		case "advance":
 			return c10Op{K: "advance", A: rapid.OneOf(rapid.IntRange(0, 3), rapid.IntRange(0, 70), rapid.IntRange(0, 200)).Draw(t, "n")}
 		case "reorg":
-			return c10Op{K: "reorg", A: rapid.IntRange(0, 9).Draw(t, "tx"), B: rapid.IntRange(0, 3).Draw(t, "mode")}
+			return c10Op{K: "reorg", A: rapid.IntRange(0, 9).Draw(t, "tx"), B: rapid.IntRange(0, 5).Draw(t, "mode")}
 		case "fault":
 			return c10Op{K: "fault", A: rapid.IntRange(0, 1).Draw(t, "m"), B: rapid.SampledFrom([]int{0, 0, 0, 0, 0, 0, 0, 0, 1, 1, 1, 1, 1, 1, 1, 1, 2, 3}).Draw(t, "n")}
 		}
